@@ -89,6 +89,28 @@ func overlayFor(repo, verif string, dirs []string, genDir string) (map[string]st
 			}
 		}
 	}
+	// store/file runs over the in-memory file system of harness/file/vfs.go: overlay copies of the CURRENT
+	// file_store.go / util.go with the package-os identifiers renamed (never committed)
+	for _, d := range dirs {
+		if d != "file" {
+			continue
+		}
+		repl := strings.NewReplacer("*os.File", "*verifFile", "os.OpenFile(", "verifOpenFile(", "os.ReadFile(", "verifReadFile(",
+			"os.Remove(", "verifRemove(", "os.MkdirAll(", "verifMkdirAll(", "os.IsNotExist(", "verifIsNotExist(",
+			"os.O_RDWR", "verifO_RDWR", "os.O_CREATE", "verifO_CREATE", "os.ModePerm", "verifModePerm", "os.FileMode", "verifFileMode",
+			"\t\"os\"\n", "\t_ \"os\"\n")
+		for _, fn := range []string{"file_store.go", "util.go"} {
+			src, err := os.ReadFile(filepath.Join(repo, "store", "file", fn))
+			if err != nil {
+				continue
+			}
+			os.MkdirAll(filepath.Join(genDir, "file_vfs"), 0o755)
+			gen := filepath.Join(genDir, "file_vfs", fn)
+			if err := os.WriteFile(gen, []byte(repl.Replace(string(src))), 0o644); err == nil {
+				ov[filepath.Join(repo, "store", "file", fn)] = gen
+			}
+		}
+	}
 	return ov, nil
 }
 
